@@ -9,6 +9,7 @@ RULE = ('structured: (specifier x modifier) x boundary lattice of years {-262143
         '9999,10000,30000,262142,...} x ordinals around month ends / first and last week x times {00:00:00,12:00:00,'
         '23:59:59, leap seconds, fractions 0/1/999/10^6/10^9-1} x offsets {0,+-1s,+-29..31s,+-59s,+-30min,+-12h,+-23:59:59}; '
         'all days of 8 years for week numbering; sf.items for every specifier/modifier/lenient flag; '
+        'the deprecated free functions format / format_item (sf.dfmt / sf.dfmti) on every specifier x modifier of every kind, the zone lattice and a tenth of the random strings; '
         'seeded random format strings (specifiers, literals, multi-byte, unicode white space, stray %)')
 
 YEARS = [-262143, -262142, -100000, -10000, -9999, -1000, -999, -401, -400, -101, -100, -99, -5, -1, 0, 1, 4, 9, 10, 70, 99,
@@ -208,6 +209,13 @@ def cases(tier, rng):
                         yield case_line('sf.fmt', 3, d + t + [off], f)
                     yield case_line('sf.fmt', 4, d + t, f)
                     yield case_line('sf.fmt', 2, d + t, f)
+                    if m == '':
+                        # the deprecated free functions format / format_item on the same values
+                        off = OFFS[(d[0] + t[0] + len(sp)) % len(OFFS)]
+                        yield case_line('sf.dfmt', 3, d + t + [off], f)
+                        yield case_line('sf.dfmti', 3, d + t + [off], f)
+                        yield case_line('sf.dfmt', 4, d + t, f)
+                        yield case_line('sf.dfmti', 2, d + t, f)
     allfmt = b('%a %b %e %T %Y %C %y %G %g %V %U %W %j %f %.f %s %p %I|%c|%D|%F|%v|%r')
     for d in small_dates:
         for t in ([0, 0], [86399, 10**9 + 999999999], [43200, 1000]):
@@ -223,6 +231,12 @@ def cases(tier, rng):
             yield case_line('sf.fmt', 3, [2001, 189, 2094, 26490000, 34200], f)
             yield case_line('sf.fmt', 4, [2001, 189, 2094, 26490000], f)
             yield case_line('sf.fmtl', 3, [2001, 189, 2094, 26490000, 34200], f)
+            for dop in ('sf.dfmt', 'sf.dfmti'):
+                yield case_line(dop, 0, [2001, 189], f)
+                yield case_line(dop, 1, [2094, 26490000], f)
+                yield case_line(dop, 2, [2001, 189, 2094, 26490000], f)
+                yield case_line(dop, 3, [2001, 189, 2094, 26490000, 34200], f)
+                yield case_line(dop, 4, [2001, 189, 2094, 26490000], f)
             yield case_line('sf.fmtl', 0, [-99, 1], b('x' + '%' + m + sp + 'y'))
     # --- random format strings
     n = 30000 if not thorough else 1200000
@@ -230,9 +244,12 @@ def cases(tier, rng):
         r = rng.random()
         if r < 0.25:
             yield case_line('sf.items', rand_fmt(rng, rng.random() < 0.4), rng.choice([0, 0, 1]))
-        elif r < 0.9:
+        elif r < 0.8:
             k, v = rand_value(rng)
             yield case_line('sf.fmt', k, v, rand_fmt(rng, rng.random() < 0.15))
+        elif r < 0.9:
+            k, v = rand_value(rng)
+            yield case_line(rng.choice(['sf.dfmt', 'sf.dfmti']), k, v, rand_fmt(rng, rng.random() < 0.15))
         else:
             k, v = rand_value(rng)
             yield case_line('sf.fmtl', k, v, rand_fmt(rng, rng.random() < 0.3))
